@@ -220,3 +220,16 @@ package v2
 //@   ensures [found-is-200] ret2("Silences).Query") == nil && len(ret("Silences).Query")) > 0 && called("GettableSilenceFromProto") && ret1("GettableSilenceFromProto") == nil ==> called("NewGetSilenceOK")
 //@   opaque requestLogger Silences).Query silence.QIDs GettableSilenceFromProto
 //@   noeffect requestLogger Silences).Query silence.QIDs GettableSilenceFromProto UUID).String
+
+// ---- C13 / C17 / C07: a (re)load hands the API the configuration in force: resolve_timeout, the receivers and the
+// routing tree all come from the configuration given last, and the tree is built from that configuration's route.
+//@ func (*API).Update
+//@   props C13 C17 C07
+//@   requires api != nil && cfg != nil
+//@   ensures [monitor-lock-released] count("RWMutex).Lock") == 1 && count("RWMutex).Unlock") == 1
+//@   at call dispatch.NewRoute assert [tree-built-from-the-new-route-under-lock] arg0 == cfg.Route && arg1 == nil && count("RWMutex).Lock") == 1 && count("RWMutex).Unlock") == 0
+//@   ensures [new-configuration-in-force] api.alertmanagerConfig == cfg
+//@   ensures [routing-tree-of-the-new-configuration] called("dispatch.NewRoute") && api.route == ret("dispatch.NewRoute")
+//@   ensures [status-callback-of-the-new-components] api.setAlertStatus == setAlertStatus
+//@   assigns api.alertmanagerConfig, api.route, api.setAlertStatus
+//@   noeffect dispatch.NewRoute
